@@ -401,7 +401,7 @@ def run(chk, tier, replay=None):
         again, completed = None, []
         for k in range(tries):
             d = dec.run_dec_case(fl, mt_case(sp, t, p16, 1 if fl == "plain" else 0), p, sched=sched,
-                                 timeout=4 * dec.case_timeout({"in": sp["ivf"]}, fl))
+                                 timeout=2 * dec.case_timeout({"in": sp["ivf"]}, fl))
             if d.timed_out:
                 again = d
                 break
